@@ -1485,10 +1485,18 @@ def _check_bad_rsp(run, world, mod):
     vfn = nr.methods.get("value")
     produced = set()
     if vfn:
-        for n in ast.walk(vfn[1]):
-            if isinstance(n, ast.Return) and isinstance(
-                    n.value, ast.Constant) and isinstance(n.value.value, str):
-                produced.add(n.value.value)
+        # the strings the property can evaluate to, on its paths (a result
+        # local assigned in the branches returns what it was assigned)
+        from .. import paths as _paths
+        try:
+            for p_ in _paths.summaries(vfn[1]):
+                if p_.kind == "return" and isinstance(
+                        p_.expr, ast.Constant) and isinstance(
+                            p_.expr.value, str):
+                    produced.add(p_.expr.value)
+        except _paths.Unsupported as e:
+            raise AnalysisError("R-BADRSP: NumericResponse.value is not "
+                                "loop-free: %s" % e)
     checks["markers"] = bool(produced) and all(
         any(mk in p for mk in markers) for p in produced)
     for n in ast.walk(fn):
